@@ -4,6 +4,7 @@ mod cluster2;
 mod explore;
 mod fam_clusterelect;
 mod fam_remoteactor;
+mod fam_wiretcp;
 mod fam_factory;
 mod cluster_io;
 mod fam_clusterauth;
@@ -84,6 +85,7 @@ fn main() {
         fam_outport::dispatch,
         fam_factory::dispatch,
         fam_framing::dispatch,
+        fam_wiretcp::dispatch,
         fam_clusterauth::dispatch,
         fam_decode::dispatch,
     ];
